@@ -126,7 +126,7 @@ impl Property for C11 {
     fn rule(&self) -> &'static str {
         "case = one shared Gauge or IntGauge (standalone - one handle shared by reference, or two handles - or a GaugeVec/IntGaugeVec child), 2-3 threads x 1-5 operations from \
          set/inc/dec/add/sub/get/Collector::collect with small integer or dyadic arguments (25% of programs: also negative, 2^40, \
-         1e300, f64::MAX, +Inf, i64 extremes - IEEE resp. wrapping arithmetic in the model; 7% of programs: the gauge starts at \
+         1e300, f64::MAX, +Inf, integers up to 2^59 - IEEE resp. exact integer arithmetic in the model; 7% of programs: the gauge starts at \
          -0.0 and arguments are +-0.0 / 1 / 0.5), and a schedule (random walk, PCT with 1-3 priority change points, or a window that pauses one thread before its \
          k-th atomic step while another completes whole operations) with up to 3 injected spurious compare-exchange failures; the \
          real library code runs one atomic step at a time in that order. Oracle: exhaustive linearizability search against the \
@@ -201,7 +201,9 @@ impl Property for C11 {
                 let mut v = if float { src.below(17) as f64 / 4.0 } else { src.below(9) as f64 };
                 if wide {
                     const FW: &[f64] = &[-1.5, -0.25, 1099511627776.0, -1099511627775.75, 1e300, -1e300, 9007199254740993.0, 0.1, f64::MAX, -0.0, f64::INFINITY];
-                    const IW: &[f64] = &[-1.0, -7.0, 1099511627776.0, -1099511627777.0, 9223372036854775807.0, -9223372036854775808.0, 4611686018427387904.0];
+                    // integer arguments stay below 2^59 in magnitude: 15 operations cannot overflow an i64, and what happens on overflow is
+                    // not part of the statement
+                    const IW: &[f64] = &[-1.0, -7.0, 1099511627776.0, -1099511627777.0, 576460752303423488.0, -576460752303423488.0, 288230376151711745.0];
                     let pool = if float { FW } else { IW };
                     let k = src.below(pool.len() + 4);
                     if k < pool.len() {
